@@ -407,7 +407,7 @@ func restoreOnto(b []byte, ref *freshRef, tcmds []fsmx.Cmd) []string {
 		}
 	}
 	if l := strings.Join(fsmx.Listing(t), ","); l != ref.listing {
-		out = append(out, "restore-onto-nonfresh-stale-listing|")
+		out = append(out, "restore-onto-nonfresh-stale-listing")
 	}
 	return out
 }
@@ -683,7 +683,7 @@ func main() {
 			seedNote = "seed=hierarchy;"
 		}
 		sNames := fsmx.Names(sc.alpha, minH)
-		run.Violate(class+"|snapshot-of="+seedNote+strings.Join(sNames, ";")+"|onto="+strings.Join(cmdNames(minT), ";"),
+		run.Violate(class+"|snapshot-of="+seedNote+strings.Join(sNames, ";")+"|onto="+ontoName(cmdNames(minT)),
 			"the snapshot of the first history, restored onto an FSM that had already applied the second history, is not the state the snapshot was taken from (Restore into a fresh FSM is)",
 			map[string]any{"scenario": sc.name, "seed": cmdNames(sc.seed), "snapshot_of": sNames, "restored_onto": cmdNames(minT),
 				"found_at": map[string]any{"snapshot_of": fsmx.Names(sc.alpha, c.hist), "restored_onto": c.tgt.names}})
@@ -703,6 +703,15 @@ func main() {
 	run.Assume("hashicorp/raft itself (log replication, snapshot scheduling) is not explored; the FSM is driven directly with committed logs; its Snapshot()/Persist() split is modelled by persisting a handle after further Apply calls (sequentially: Persist racing an in-flight Apply at instruction level is a data-race question, not explored here)")
 	run.Assume("fsmSnapshot.Persist is a deterministic function of the handle (json.Marshal): a late-persisted stream byte-identical to the immediate one is not restored again")
 	run.Finish()
+}
+
+// ontoName renders the (minimised) target history; an empty one is a fresh FSM that only served a
+// manifest listing before the restore.
+func ontoName(names []string) string {
+	if len(names) == 0 {
+		return "<fresh FSM>"
+	}
+	return strings.Join(names, ";")
 }
 
 func pick(q bool, a, b int) int {
